@@ -133,7 +133,7 @@ func c12NSCase(t *testing.T, r *kit.Result, rng *kit.Rand, caseID string, transa
 		}
 		w.sync()
 		for _, m := range w.liveMounts(c12Rec) {
-			if !m.NS.under(S) {
+			if !m.NS.under(S) || s.written[m] == "" {
 				continue
 			}
 			if before[m] != m.Prefix {
@@ -162,7 +162,7 @@ func c12NSCase(t *testing.T, r *kit.Result, rng *kit.Rand, caseID string, transa
 func (s *c12NSRun) matrix(phase string, focus *c12NS) {
 	var targets []*c12Mount
 	for _, m := range s.mounts {
-		if !m.Dead && m.NS != nil && c12Rec(m) {
+		if !m.Dead && m.NS != nil && c12Rec(m) && s.written[m] != "" {
 			targets = append(targets, m)
 		}
 	}
